@@ -127,7 +127,32 @@ def run(repo, tier):
     out += scratch_rule(fi)
     out += dp_rules(fi)
     out += offset_rules(repo, fi)
+    out += dp_complete_rule(fi)
+    from ..rules import module_state_rule
+    out += module_state_rule(repo, F)
     return out
+
+
+def dp_complete_rule(fi):
+    """every motif column after the first is convolved into the distribution: the per-column loop has no early exit and its
+    reset / convolve / copy stages are unconditional"""
+    role = "every column 1..l-1 contributes to the score distribution (no column is skipped)"
+    loops = [n for n in fi.node.body if isinstance(n, ast.For) and unparse(n.iter) in ("range(1, l)", "range(1, log_pwm.shape[1])", "range(1, log_pwm.shape[-1])")]
+    if len(loops) != 1:
+        cand = [n for n in fi.node.body if isinstance(n, ast.For) and any("int_log_pwm[k, i]" in unparse(x) for x in ast.walk(n))]
+        if cand:
+            return [violation("DP", fi, role, "per-column loop runs over `%s`, expected range(1, l)" % unparse(cand[0].iter), cand[0])]
+        return [unrecognised("DP", fi, role, "per-column loop not found")]
+    l = loops[0]
+    skips = [n for n in l.body if isinstance(n, ast.If) and any(isinstance(x, (ast.Continue, ast.Break, ast.Return)) for x in ast.walk(n))]
+    skips += [n for n in l.body if isinstance(n, (ast.Continue, ast.Break))]
+    if skips:
+        return [violation("DP", fi, role, "`%s` lets a column leave the distribution untouched although it shifts every attainable score by the column's value "
+                          "(only a column of zeros is neutral)" % unparse(skips[0]).split("\n")[0][:70], skips[0])]
+    stages = [type(s).__name__ for s in l.body]
+    if stages != ["For", "For", "For"]:
+        return [unrecognised("DP", fi, role, "loop body stages %s" % stages, l)]
+    return [holds("DP", fi, role, "reset, convolve, copy-back run unconditionally for every column", l)]
 
 
 def offset_rules(repo, fi):
